@@ -164,8 +164,16 @@ def _c18():
     # later await point is explored (under an infeasible guard) even when an early read fails.
     # The helper loops of the tokio shim run at most twice on an always-ready in-memory stream;
     # bound them so that the infeasible explorations stay cheap (unwinding assertions stay on).
-    io_loops = [(r"tokio::io::(ReadInt|ReadExact|WriteAll|ReadUntil|Read|Write)\b", 3)]
-    hs = [H(n, tier="thorough" if (n in thorough_only or slow(n)) else "quick", profiles=("dev", "rel"), timeout=(3000 if slow(n) else None), mem_gb=(20 if slow(n) else None), unwindset=io_loops if ("req" in n or "methods" in n) and "v4req" not in n else (),
+    io_loops = [(r"tokio::io::(ReadInt|ReadExact|WriteAll|ReadUntil|Read|Write)\b", 3),
+                # address rendering (std): the IPv6 branch is explored, under an infeasible guard, in every
+                # instance (the address-type octet read inside a nested coroutine is not folded); its loops
+                # run at most 8 (segments) / 4 (hex digits) / 3 (decimal digits) times
+                (r"LowerHex for u16>::fmt", 6), (r"Ipv6Addr as std::fmt::Display>::fmt", 10), (r"fmt_subslice", 10),
+                (r"fmt::num::imp::<impl std::fmt::Display for u8>", 5), (r"^std::fmt::write$", 10)]
+    # beyond reach: the SOCKS5 request reader (three nested async fns + std address formatting) did not
+    # finish symbolic execution within 3000 s / 20 GB per instance on this machine
+    off = lambda n: n.startswith("c18_v5req_")
+    hs = [H(n, tier="off" if off(n) else ("thorough" if (n in thorough_only or slow(n)) else "quick"), profiles=("dev", "rel"), timeout=(3000 if slow(n) else None), mem_gb=(20 if slow(n) else None), unwindset=io_loops if ("req" in n or "methods" in n) and "v4req" not in n else (),
             note="message octets symbolic except the constants named in the harness") for n in names]
     return dict(
         kind="ext", module="c18", shims=["bytes", "tokio", "tracing", "tracing-attributes", "parking_lot_core"],
@@ -173,7 +181,8 @@ def _c18():
         bounds=dict(message_len="concrete per harness: every truncation point around each field boundary (UDP header 0..12 / 21..23 octets; SOCKS5 request 0..12 / 21,22; SOCKS4 0..12)",
                     domain_len="0,1,2 (SOCKS5), 0,2 (SOCKS4a)", userid_len="0,1,2", payload="0..3 octets", ip_literals="address octets fixed (127.0.0.1, ::1, 10.0.0.200, 192.168.1.9) where the address is rendered as text; symbolic where it is copied (replies, UDP reply)",
                     everything_else="symbolic (commands, ports, reply codes, reserved octets, methods, payload)"),
-        outside=["domain names / user ids longer than 2 octets", "IP-literal formatting for arbitrary addresses (std fmt code)", "readers that return Pending (the in-memory stream is always ready; the *Ext helpers are the tokio shim)"],
+        outside=["NOT COVERED: penguin_socks::v5::read_request (SOCKS5 request reader): its instances (c18_v5req_*, written) do not finish symbolic execution within 3000 s / 20 GB each; the SOCKS5 method negotiation, both reply writers, the UDP relay header parser/builder and the SOCKS4/4a request reader are covered",
+                 "domain names / user ids longer than 2 octets", "IP-literal formatting for arbitrary addresses (std fmt code)", "readers that return Pending (the in-memory stream is always ready; the *Ext helpers are the tokio shim)"],
         assumptions=["tokio shim AsyncReadExt/AsyncBufReadExt/AsyncWriteExt helpers follow tokio's documented behaviour (read_exact/read_uN fail with UnexpectedEof, read_until returns what it has at EOF)"],
         trusted=[SHIM_TRUST["bytes"], SHIM_TRUST["tokio"], "reference grammar of RFC 1928 / SOCKS4a in harness/ext/src/c18.rs"],
         explanation="Differential check of the real SOCKS readers/writers against a reference grammar over all octet values of messages of each enumerated length, including every truncation point.",
